@@ -132,7 +132,9 @@ func (h *H) doSnapshot(sid int, t, c int64, fail int) {
 	lenBefore := len(h.shadow)
 	h.mu.Unlock()
 	err := safe(func() error { return h.rpc.SendSnapshot(st) })
-	waitNoGoroutineIn("followerController).handleSnapshot")
+	if h.racing {
+		waitNoGoroutineIn("followerController).handleSnapshot")
+	}
 	res := errKind(err)
 	if err == nil {
 		if st.resp != nil {
@@ -176,6 +178,6 @@ func waitNoGoroutineIn(fn string) {
 		if !bytes.Contains(buf[:n], []byte(fn)) || time.Now().After(deadline) {
 			return
 		}
-		time.Sleep(200 * time.Microsecond)
+		time.Sleep(time.Millisecond)
 	}
 }
